@@ -99,10 +99,15 @@ def make_world(name, seed=0):
         def one(n, t0):
             return [da(n, t0, dict(x=[10.0, 20.0, 30.0]), "p"), xr.Dataset({"a": da(n, t0, dict(y=[1.0, 2.0]), "a"), "b": da(n, t0, dict(y=[1.0, 2.0]), "b")})]
         return dict(d1=(one(7, 0), "time"), d2=(one(7, 30), "time"))
+    if name == "listrelabel":     # lists with the same feature counts per item but other feature labels (and a Dataset item whose
+        def one(n, t0, x, y):     # variables are named differently): only the data set itself can be transformed
+            return [da(n, t0, dict(x=x), "p"), xr.Dataset({"a": da(n, t0, dict(y=y), "a"), "b": da(n, t0, dict(y=y), "b")})]
+        return dict(d1=(one(7, 0, [10.0, 20.0, 30.0], [1.0, 2.0]), "time"), d2=(one(7, 30, [15.0, 25.0, 35.0], [7.0, 8.0]), "time"))
     raise MachineryError(name)
 
 
-WORLDS = ["multiDA", "two", "two_same", "listmix"]
+WORLDS = ["multiDA", "two", "two_same", "listmix", "listrelabel"]
+SELF_ONLY = {"listrelabel"}       # worlds whose data sets are not transformable by a chain fitted on the other one
 
 
 class Ref:
@@ -217,7 +222,7 @@ def replay(world, flags, path, found, facts):
 
 def run(rep, tier, seed):
     """TLC explores XPrepStages completely, every transition is covered by replayed paths for every world x flags."""
-    cfg = ["SPECIFICATION Spec", "CONSTANTS", " Datasets <- DS", " Deviations <- NoDev", "INVARIANT C14_FitStateFromLastFit",
+    cfg = ["SPECIFICATION Spec", "CONSTANTS", " Datasets <- DS", " Deviations <- NoDev", " Compatible <- CompAll", "INVARIANT C14_FitStateFromLastFit",
            "INVARIANT C02_FitOutputsFromFitState", "INVARIANT C05_UnseenLabelsFromLastTransform", "PROPERTY C14_TransformWritesOnlyBookkeeping",
            "ACTION_CONSTRAINT EmitEdge", "CHECK_DEADLOCK FALSE"]
     res = tlc.run("MC_XPrepStages", cfg, name="prepstages", workers=1)
@@ -228,22 +233,30 @@ def run(rep, tier, seed):
     rep.self_tests.append(dict(test="deviation TransformOverwritesFitCoords must violate an invariant of XPrepStages", violated=dev.violated))
     if dev.ok:
         raise MachineryError("XPrepStages deviation gives no counterexample")
-    edges = []
-    for e in res.emitted:
-        edges.append(dict(s=dict(m=dict(fitted=e["s"]["fit"]["scaler"] != "none"), r=dict(fitted=False), snaps=[], **e["s"]), a=e["a"],
-                          t=dict(m=dict(fitted=True), r=dict(fitted=False), snaps=[], **e["t"])))
-    g = Graph(edges)
+    def graph_of(r):
+        edges = []
+        for e in r.emitted:
+            edges.append(dict(s=dict(m=dict(fitted=e["s"]["fit"]["scaler"] != "none"), r=dict(fitted=False), snaps=[], **e["s"]), a=e["a"],
+                              t=dict(m=dict(fitted=True), r=dict(fitted=False), snaps=[], **e["t"])))
+        return Graph(edges)
+    g = graph_of(res)
     paths, unc = g.cover(10, random.Random(seed))
+    res2 = tlc.run("MC_XPrepStages", [c.replace("CompAll", "CompSelf") for c in cfg], name="prepstages_self", workers=1)
+    rep.add_tlc(res2)
+    if not res2.ok:
+        rep.violate(res2.violated, f"TLC: {res2.violated} violated in XPrepStages itself (self-compatible data sets)", dict(kind="spec"))
+    g2 = graph_of(res2)
+    paths2, unc2 = g2.cover(10, random.Random(seed))
     findings = []
     facts = dict(D=0)
     for world in WORLDS:
         for flags in (("none", "std") if tier != "thorough" else ("none", "center", "std")):
-            for p in paths:
+            for p in (paths2 if world in SELF_ONLY else paths):
                 found = []
                 replay(world, flags, p, found, facts)
                 rep.traces += 1
                 for prop, clause, what in found:
                     findings.append((prop, clause, what, dict(kind="prepstages_path", world=world, flags=flags, actions=[x[1] for x in p])))
     rep.d_facts += facts["D"]
-    rep.extra["prepstages"] = dict(states=len(g.states), edges=g.nedges, paths=len(paths), uncovered=unc, worlds=WORLDS)
+    rep.extra["prepstages"] = dict(states=len(g.states), edges=g.nedges, paths=len(paths), uncovered=unc + unc2, worlds=WORLDS)
     return findings
